@@ -19,8 +19,13 @@ static uint64_t scen_body(void *a) {
   case K_CREATE: { static const int D[][2] = {{1, 1}, {64, 64}, {100, 200}, {0, 5}, {3000, 3000}, {4096, 4096}}; mzd_t *A = mzd_init(D[q->aux][0], D[q->aux][1]); if (D[q->aux][0]) mzd_write_bit(A, D[q->aux][0] - 1, D[q->aux][1] - 1, 1); mzd_t *B = mzd_copy(NULL, A); mzd_free(B); mzd_free(A); break; }
   case K_WINDOW: { mzd_t *W = mzd_init_window(SM[0], 1, 64, 3, 100); mzd_t *W2 = mzd_init_window(W, 0, 0, 1, 10); mzd_write_bit(W2, 0, 0, 1); mzd_free(W2); mzd_free(W); break; }
   case K_MZP: { mzp_t *P = mzp_init(100); mzp_t *Q = mzp_copy(NULL, P); mzp_t *W = mzp_init_window(P, 3, 50); mzp_free_window(W); mzp_free(Q); mzp_free(P); break; }
-  case K_PNG_WRITE: (void)mzd_to_png(SM[0], q->fn, -1, "c20", 0); break;
-  case K_PNG_READ: { mzd_t *A = mzd_from_png(q->fn, 0); if (A) mzd_free(A); break; }
+  case K_PNG_WRITE: { int rc = mzd_to_png(SM[0], q->fn, -1, "c20", 0);
+    if (q->aux) { /* verify mode: a claimed success must have produced a file that reads back as the matrix */
+      aw_tracking = 0; aw_fail_at = 0; if (rc == 0) { mzd_t *A = mzd_from_png(q->fn, 0); int ok = A && mzd_equal(A, SM[0]); if (A) mzd_free(A); return ok ? 1 : 2; } return 1; }
+    break; }
+  case K_PNG_READ: { mzd_t *A = mzd_from_png(q->fn, 0);
+    if (q->aux) { aw_tracking = 0; aw_fail_at = 0; int ok = !A || mzd_equal(A, SM[0]); if (A) mzd_free(A); return ok ? 1 : 2; } /* NULL (rejected) or exactly the matrix */
+    if (A) mzd_free(A); break; }
   case K_DJB: { djb_t *z = djb_compile(SM[0]); mzd_t *W = mzd_init(SM[0]->nrows, SM[1]->ncols); djb_apply_mzd(z, W, SM[1]); mzd_free(W); djb_free(z); break; }
   case K_FROM_STR: { mzd_t *A = mzd_from_str(3, 3, "101010101"); mzd_free(A); break; }
   case K_JCF: { mzd_t *A = mzd_from_jcf(q->fn, 0); if (A) mzd_free(A); break; }
@@ -63,6 +68,40 @@ static void live_drop(void) { while (nlive > 0) mzd_free(LIVE[--nlive]); m4ri_mm
 void prop_enumerate(void) {
   snprintf(TMP, sizeof TMP, "%s", vx_arg("errdir", "/tmp"));
   int cap = vx_tier ? 1200 : 160;
+  if (!strcmp(vx_arg("mode", "fresh"), "pnglib")) {
+    /* EVERY allocation made during a PNG read / write, including libpng's and zlib's own (allocator interposed by symbol
+       definition, plain build): each one fails in turn.  Admissible outcomes: controlled abort (m4ri_die, or libpng's error
+       handler: diagnostic + abort), an error return (NULL / non-zero), or a complete and correct result when the failed request
+       was not essential.  Never a matrix / file that claims success but holds something else. */
+    static char fn2[700]; static const int SH[][2] = {{9, 70}, {3, 200}, {64, 64}, {130, 5}};
+    for (int si = 0; si < 4; si++) {
+      snprintf(fn2, sizeof fn2, "%s/c20lib-%d-%d.png", TMP, (int)getpid(), si);
+      pm *c = pm_pat(SH[si][0], SH[si][1], (pat){P_PR, 0, 1}); SM[0] = mzd_from_pm(c); pm_free(c);
+      for (int wr = 1; wr >= 0; wr--) {
+        if (!wr) mzd_to_png(SM[0], fn2, -1, "c20", 0);
+        scen q = {wr ? K_PNG_WRITE : K_PNG_READ, NULL, NULL, 1, 0, fn2}; char d[48]; snprintf(d, sizeof d, "%dx%d|all-allocations", SH[si][0], SH[si][1]);
+        const char *name = wr ? "mzd_to_png(incl. libpng/zlib requests)" : "mzd_from_png(incl. libpng/zlib requests)";
+        vx_group(); long N = -1;
+        for (long i = 0; i <= 400; i++) {
+          if (!vx_case_begin("%s|%s|fail@%ld", name, d, i)) continue;
+          if (N < 0) { vx_fate cfa = vx_fork_call(count_body, &q, 60); q.aux = 1; if (cfa.fate != 0) { vx_fail(name, "baseline", "%s: does not complete without fault injection (fate %d %s)", d, cfa.fate, cfa.note); N = 0; } else N = (long)cfa.ret; }
+          if (i == 0) { vx_count("allocation_requests", (uint64_t)N); vx_input(hstr_c20(name, d), 0); vx_case_end(); continue; }
+          if (i > N) { vx_case_end(); continue; }
+          q.fail_at = i; q.aux = 1;
+          vx_fate ft = vx_fork_call(scen_body, &q, 60);
+          if (getenv("C20_DEBUG")) fprintf(stderr, "%s %s fail@%ld/%ld: fate %d ret %llu die=%d note=%.60s\n", name, d, i, N, ft.fate, (unsigned long long)ft.ret, ft.die_entered, ft.note);
+          if (ft.fate == 0) { if (ft.ret == 2) vx_fail(name, "wrong-result-after-failure", "%s: request %ld of %ld failed and the call claimed success with a wrong result", d, i, N); }
+          else if (ft.fate == 1) { if (!ft.die_msg[0]) vx_fail(name, "no-diagnostic", "%s: request %ld: m4ri_die without a message", d, i); }
+          else if (ft.fate == 7) { /* libpng's own error handler: diagnostic + abort */ }
+          else vx_fail(name, "uncontrolled-termination", "%s: request %ld of %ld failed: fate %d signal %d; %s", d, i, N, ft.fate, ft.sig, ft.note);
+          vx_count("evals", 1); vx_input((uint64_t)ft.site * 0x9E3779B97F4A7C15ULL + (uint64_t)ft.fate, 1);
+          vx_case_end();
+        }
+      }
+      unlink(fn2); mzd_free(SM[0]); SM[0] = NULL;
+    }
+    return;
+  }
   if (!strcmp(vx_arg("mode", "fresh"), "prestate")) {
     static const long TG[] = {64, 128, 63, 65, 127, 192};
     for (int t = 0; t < (vx_tier ? 6 : 4); t++) {
